@@ -488,7 +488,7 @@ def check_missing(case):
 
 FACETS = [
     Facet(name="valid_grid", kind="enumerate", enumerate=valid_enumerate, check=check_valid_cell,
-          timeout_is_violation=True, time_limit=12.0, exhaustive=True, exhaustive_tiers=("thorough",),
+          timeout_is_violation=True, time_limit=20.0, exhaustive=True, exhaustive_tiers=("thorough",),
           rule=("finite grid: per detector the boundary and interior values of every hyper-parameter x scorer choices x "
                 "n in {min-2..min+3, min+17} x p in 1..3 x six data kinds (constant 0, constant 0.1, integer ties, step, "
                 "spike, generic) x with/without one NaN; thorough tier enumerates every cell, quick tier a VERIF_SEED-"
@@ -496,7 +496,7 @@ FACETS = [
                 "or cells with a detection, and the must-reject cells next to the minimum length / with NaN"),
           shards_quick=16, shards_thorough=16, max_samples=3),
     Facet(name="invalid_grid", kind="enumerate", enumerate=invalid_enumerate, check=check_invalid_cell,
-          exhaustive=True, timeout_is_violation=True, time_limit=12.0,
+          exhaustive=True, timeout_is_violation=True, time_limit=20.0,
           rule=("every invalid hyper-parameter class named in the property (negative scales, min_segment_length below "
                 "its minimum, max below min, growth factor outside (1,2], level outside (0,1), bandwidth < 1, "
                 "stat_lower > stat_upper) through the constructor and through set_params, followed by fit/predict - alone and next to valid non-default "
@@ -504,13 +504,13 @@ FACETS = [
                 "ValueError must be raised at some stage; every cell is non-trivial"),
           shards_quick=4, shards_thorough=4),
     Facet(name="numpy_scalar_hyperparameters", kind="enumerate", enumerate=numpy_scalar_cells, check=check_numpy_scalars,
-          exhaustive=True, timeout_is_violation=True, time_limit=12.0,
+          exhaustive=True, timeout_is_violation=True, time_limit=20.0,
           rule=("11 valid configurations (boundary values included) of the seven detectors with every numeric hyper-parameter "
                 "given as a numpy scalar (int64, int32, float64, float32, int_, uint8) x two data kinds: must run and give the "
                 "same detections as the equal Python numbers; every cell is non-trivial"),
           shards_quick=4, shards_thorough=4),
     Facet(name="missing_value_forms", kind="enumerate", enumerate=missing_cells, check=check_missing, exhaustive=True,
-          timeout_is_violation=True, time_limit=12.0,
+          timeout_is_violation=True, time_limit=20.0,
           rule=("seven detectors x eight forms of a missing value (NaN in float64 / float32 frames, arrays and Series, pd.NA in "
                 "nullable Int64 / Float64 / boolean columns, None in an object column) x position first/middle/last x p in {1,2} x "
                 "in the data given to fit, predict, transform, fit_predict, or to update as a chunk of new rows: ValueError expected; every cell is non-trivial"),
